@@ -214,6 +214,9 @@ def _judge_common(label, snap, graph, X, Y, Z, res, raised):
     ref = snap["ref"]
     case = {"graph": gd_of(ref), "X": sorted(v.name for v in X), "Y": sorted(v.name for v in Y),
             "Z": sorted(v.name for v in Z), "entry": label}
+    if isinstance(kernel.LOG.case, dict) and kernel.LOG.case.get("history"):
+        case["history"] = kernel.LOG.case["history"]
+        case["caller-reuses-its-sets"] = True
     conditional = bool(Z)
     ptot = "C03" if conditional else "C02"
     valid = (ref.is_acyclic() and X.isdisjoint(Y) and X.isdisjoint(Z) and Y.isdisjoint(Z) and bool(Y)
@@ -290,6 +293,13 @@ def _sets(treatments, outcomes, conditions):
     driver's declared intent (LOG.case['intended']) stands in for it - and without one the call is not judged."""
     from y0.dsl import Variable
 
+    c_ = kernel.LOG.case if isinstance(kernel.LOG.case, dict) else {}
+    if c_.get("caller-reuses-its-sets") and c_.get("intended"):
+        # the caller built its sets once and hands the same objects to several calls: what it ASKED is what it put in
+        # them, not what a previous call may have left there
+        it = c_["intended"]
+        kernel.count("id:judged-against-the-callers-intent")
+        return ({Variable(x) for x in it["X"]}, {Variable(y) for y in it["Y"]}, {Variable(z) for z in it["Z"]})
     oneshot = any(x is not None and not isinstance(x, (Variable, set, frozenset, list, tuple))
                   for x in (treatments, outcomes, conditions))
     if oneshot:
